@@ -71,6 +71,8 @@ def install(repo='/repo'):
     uuid.uuid4 = _sim_uuid4
     import http.server
     http.server.BaseHTTPRequestHandler.log_message = lambda self, *a, **kw: None  # stderr chatter of the stdlib server
+    import socketserver
+    socketserver.BaseServer.handle_error = lambda self, request, client_address: None  # (checks that care override it)
     if repo not in sys.path:
         sys.path.insert(0, repo)  # for tests.mockstuff and tutorial.*
     import sdc11073.definitions_sdc  # noqa: F401  fills the ProtocolsRegistry
